@@ -37,6 +37,7 @@ def build(tier="quick", seed=0):
     layer_mass_below(b)
     world_assembly(b)
     layer_call_site(b)
+    lean_lemmas(b, tier)
     scaling(b)
     naming_and_frame(b)
     bounded_assembly(b, tier, seed)
@@ -394,6 +395,47 @@ def layer_call_site(b):
         for k_ in ("radius", "mass", "thickness"):
             ground(b, tag + f"::stores[{k_}]", mfn.key, f"set_geometry receives the {k_} that find_geometry_from_config returned", sk.get(k_) == ret[k_], detail=f"passed {sk.get(k_)}")
         ground(b, tag + "::builds_slices", mfn.key, "the layer's state geometry is updated and its slices are built", sk.get("update_state_geometry", True) is True and sk.get("build_slices", True) is True, detail=str(sk))
+
+
+def lean_lemmas(b, tier):
+    """for-every-N lemmas behind the slice-array clauses (lean/Telescoping.lean, Lean 4 + Mathlib): thorough tier only (a cold Mathlib import
+    takes minutes).  The element forms the lemmas start from are what physical_slices checks on the real source for N = 1, 2, 3, 5."""
+    import subprocess, time, re
+    key = f"{FP}::PhysicalObjSpherical.set_geometry"
+    path = os.path.join(os.path.dirname(os.path.dirname(os.path.abspath(__file__))), "lean", "Telescoping.lean")
+    lemmas = [("slice_volumes_sum", "for every N: sum_k c (r_{k+1}^3 - r_k^3) == c (r_N^3 - r_0^3): slice volumes of contiguous shells sum to the shell volume"),
+              ("linspace_strict_mono", "for every N > 0 and r_in < R: the linspace radii r_in + k (R - r_in)/N are strictly increasing"),
+              ("linspace_last", "for every N > 0: the last linspace radius is R"),
+              ("enclosed_mass_mono", "for every N: mass_below + running sum of non-negative slice masses never decreases")]
+    if tier != "thorough":
+        b.notes.append("lean/Telescoping.lean (for-every-N lemmas of the slice arrays) is checked in the thorough tier only")
+        return
+    try:
+        src = open(path).read()
+    except OSError as e:
+        b.subset_exits.append(f"lean/Telescoping.lean not readable: {e}")
+        return
+    body = re.sub(r"/-.*?-/", "", src, flags=re.S)
+    body = re.sub(r"--.*", "", body)
+    cheats = [w for w in ("sorry", "axiom", "admit", "native_decide", "unsafe") if re.search(r"\b" + w + r"\b", body)]
+    t0 = time.time()
+    try:
+        r = subprocess.run(["lean", path], capture_output=True, text=True, timeout=1500)
+        out, rc = (r.stdout + r.stderr).strip(), r.returncode
+    except (subprocess.TimeoutExpired, OSError) as e:
+        out, rc = f"{type(e).__name__}: {e}", None
+    secs = round(time.time() - t0, 1)
+    for name, clause in lemmas:
+        present = re.search(r"\btheorem\s+" + name + r"\b", body) is not None
+        if rc is None or not present:
+            verdict, reason = "undecided", (out[:300] if rc is None else "theorem not found in the file")
+        elif rc == 0 and not cheats and "error" not in out and "sorry" not in out:
+            verdict, reason = "discharged", f"lean {path} exit 0 in {secs}s, no sorry / axiom in the file"
+        else:
+            verdict, reason = "undecided", f"lean exit {rc}; escape hatches found: {cheats}; output: {out[:300]}"
+        b.add(Obligation(oid=f"{key}::lemma:lean[{name}]", fn=key, clause=clause, goal=None, meta=dict(seconds=secs),
+                         decided=dict(verdict=verdict, backend="lean4+mathlib", reason=reason, model=None)))
+    b.trusted_base.append("Lean 4.33.0 kernel + Mathlib v4.33.0 (thorough tier, lean/Telescoping.lean)")
 
 
 def scaling(b):
